@@ -224,7 +224,7 @@ def st_cases():
             residues.append({"chain": chain, "number": number[chain], "names": names, "letter": letter, "resname": resname, "occ": occs})
         nat = sum(len(r["names"]) for r in residues)
         plants = draw(st.lists(st.tuples(st.integers(0, 10 ** 6), st.integers(0, 10 ** 6),
-                                         st.sampled_from([-0.3, -0.05, -0.001, 0.001, 0.05, 0.3, -0.6]),
+                                         st.sampled_from([-0.3, -0.05, -0.001, -0.0001, 0.0001, 0.001, 0.05, 0.3, -0.6]),
                                          st.integers(0, 2), st.booleans()), min_size=1, max_size=6))
         return {"kind": "synthetic", "residues": residues, "plants": [list(p) for p in plants]}
 
